@@ -22,6 +22,7 @@ import (
 	"github.com/criyle/go-sandbox/runner"
 	"github.com/criyle/go-sandbox/runner/ptrace"
 	"github.com/criyle/go-sandbox/runner/unshare"
+	"golang.org/x/sys/unix"
 	"verif/mc"
 )
 
@@ -385,4 +386,38 @@ func lowestFree2() (int, int) {
 	syscall.Close(a)
 	syscall.Close(b)
 	return a, b
+}
+
+// fdShortage lowers the soft RLIMIT_NOFILE of this process so that exactly k descriptor numbers are free below it
+// (numbers in use above the new limit stay usable), and returns the function that restores the limit.
+func fdShortage(k int) func() {
+	var old unix.Rlimit
+	unix.Prlimit(0, unix.RLIMIT_NOFILE, nil, &old)
+	open := map[int]bool{}
+	if d, err := os.Open("/proc/self/fd"); err == nil {
+		names, _ := d.Readdirnames(-1)
+		self := int(d.Fd())
+		d.Close()
+		for _, n := range names {
+			var v int
+			fmt.Sscan(n, &v)
+			if v != self {
+				open[v] = true
+			}
+		}
+	}
+	limit, free := 0, 0
+	for free < k {
+		if !open[limit] {
+			free++
+		}
+		limit++
+	}
+	// trailing numbers in use do not add free ones
+	for open[limit] {
+		limit++
+	}
+	nl := unix.Rlimit{Cur: uint64(limit), Max: old.Max}
+	unix.Prlimit(0, unix.RLIMIT_NOFILE, &nl, nil)
+	return func() { unix.Prlimit(0, unix.RLIMIT_NOFILE, &old, nil) }
 }
